@@ -113,7 +113,10 @@ class Ctl(controller_nonMPI):
 
     def send_full(self, S, level=None, add_to_stats=False):
         STATE['comm'].append(('sendcall', S.status.slot, level, S.status.stage))
+        old = S.levels[level].tag
         super().send_full(S, level=level, add_to_stats=add_to_stats)
+        if S.levels[level].tag is not old:  # a value was really published (the tag object is replaced on every send)
+            STATE['comm'].append(('published', S.status.slot, level, bool(S.status.last), S.status.stage))
         if not S.status.last:
             STATE['sent'][(S.status.slot, level)] = (level, S.status.iter, S.status.slot)
             STATE['comm'].append(('send', S.status.slot, level, S.status.iter, id(S.levels[level].uend)))
@@ -159,6 +162,7 @@ def build(NP, NL, predict_type, mssdc_jac, all_to_done, nsweeps, inject=None, re
     )
     if NL > 1:
         desc['space_transfer_class'] = mesh_to_mesh
+    inject = {k: v for k, v in dict(inject or {}).items() if k != 'short'}
     if inject:
         desc['convergence_controllers'] = {InjectForce: dict(inject)}
     cp = {'logger_level': 50, 'dump_setup': False, 'hook_class': [Rec] + list(extra_hooks), 'predict_type': predict_type,
@@ -182,6 +186,9 @@ def run_block(c, NP, NL, KMAX, predict_type, mssdc_jac, all_to_done, nsweeps, in
     if maxiter_sym:
         c.add(z3.And(mx >= 0, mx <= KMAX))
     ctl = build(NP, NL, predict_type, mssdc_jac, all_to_done, nsweeps, inject)
+    NPROC = NP
+    if inject and dict(inject).get('short') and NP > 1:
+        NP = NP - 1  # a block with fewer steps than the controller has processes (Tend reached before the last process gets a step)
     for S_ in ctl.MS:
         S_.params.maxiter = SymInt(mx) if maxiter_sym else KMAX
     P = ctl.MS[0].levels[0].prob
@@ -219,6 +226,10 @@ def run_block(c, NP, NL, KMAX, predict_type, mssdc_jac, all_to_done, nsweeps, in
             _, slot, level, same, alias = ev
             if not same or alias:
                 viol.append(('recv-value', (slot, level, same, alias)))
+    # (4a) a value is published only for a step that has a successor in the block: the last step of the block publishes nothing (nobody would consume it)
+    for ev in STATE['comm']:
+        if ev[0] == 'published' and ev[3]:
+            viol.append(('send-unconsumed', (ev[1], ev[2], ev[4])))
     # (4b) in the stages that exchange and then sweep (fine, down, up, check) a step receives on the level it has just sent on
     lastcall = {}
     for ev in STATE['comm']:
